@@ -13,6 +13,7 @@
 //   delim_sel: u8  0 "(", 1 ")", 2 "[", 3 "]", 4 "{", 5 "}", 6 Unknown("??")   (used iff Delim)
 //   op_sel: u8     0 "+", 1 ":", 2 "?", 3 "=", 4 ",", 5 "("                  (used iff Operator)
 //   expect_sel: u8 0 ",", 1 ":", 2 "]", 3 "}", 4 "(", 5 ")"
+//   _marker: u8    (see cex_marker)
 
 use super::*;
 use crate::define::Result;
@@ -79,6 +80,16 @@ fn expected_text(sel: u8) -> &'static str {
         4 => "(",
         _ => ")",
     }
+}
+
+/// Drawn after the last kani::cover! and immediately before the assertions of a harness. Concrete
+/// playback extracts the kani::any() values of the trace *up to* the property, and Kani drops a
+/// playback test that is identical to the one printed just before it; this extra byte makes the
+/// value list of every harness assertion differ from that of every cover, so the counterexample
+/// of a failed assertion is always printed. (Layout: trailing `_marker: u8` in run_kani.py.)
+fn cex_marker() {
+    let m: u8 = kani::any();
+    kani::assume(m == 0xA5);
 }
 
 struct Case {
@@ -149,6 +160,7 @@ fn k3_expect_rejects_mismatch() {
     kani::cover!(c.tok_kind == 0 && !text_matches(&c), "k3_mismatched_delim_reachable");
     kani::cover!(c.tok_kind == 1 && !text_matches(&c), "k3_mismatched_operator_reachable");
     kani::cover!(c.tok_kind == 2 && !text_matches(&c), "k3_mismatched_comma_reachable");
+    cex_marker();
     assert!(
         !ok || text_matches(&c),
         "k3_expect_rejects_mismatch: expect(op) returned Ok(()) although the token is not `op`"
@@ -167,5 +179,6 @@ fn k3_expect_accepts_match() {
     kani::cover!(c.tok_kind == 0, "k3_match_delim");
     kani::cover!(c.tok_kind == 1, "k3_match_operator");
     kani::cover!(c.tok_kind == 2, "k3_match_comma");
+    cex_marker();
     assert!(ok, "k3_expect_accepts_match: expect(op) rejected the token whose text is `op`");
 }
